@@ -8,7 +8,7 @@ the token-stream text of as_code (content hashes over the complete strings); TLC
 runs against the monitor; (3) canary: one altered hash must be flagged.
 
 Structure: one function per source of inputs (`dfir_runs`); the Hydro-level half adds another
-function returning rows of the same shape and appends them in run()."""
+function returning rows of the same shape (lib/detc_hydro.py, called from _hydro_half)."""
 import json
 import os
 
@@ -114,6 +114,7 @@ def run(tier):
 
     # (3) canary: one altered hash must be flagged
     if not with_code:
+        _hydro_half(tier, res)
         return {"C42": res}
     can = [dict(x) for x in per_input[with_code[0]]]
     can[-1]["code"] = "0" * 32
@@ -124,14 +125,27 @@ def run(tier):
     res.extra["canary"] = "altered code hash of one run flagged: %s" % cviol
 
     res.assumptions = ["content hashes (2 x 64-bit FNV-1a lanes over the complete string) stand for the strings",
-                       "code text is rendered outside rustc (proc-macro2 fallback spans: line/column of the parsed text)",
-                       "DFIR half only: Hydro flows are not compiled here"]
+                       "code text is rendered outside rustc (proc-macro2 fallback spans: line/column of the parsed text)"]
+    _hydro_half(tier, res)
     return {"C42": res}
+
+
+def _hydro_half(tier, res):
+    """Source of inputs #2: Hydro flows (lib/detc_hydro.py, owned by the Hydro-program family)."""
+    try:
+        import detc_hydro
+    except ImportError:
+        res.assumptions.append("DFIR half only: lib/detc_hydro.py not present, Hydro flows are not compiled here")
+        return
+    detc_hydro.run_hydro_determinism(tier, res)
 
 
 def replay(pid, path):
     with open(path) as f:
         rep = json.load(f)
+    if rep["case"].get("hydro"):
+        import detc_hydro
+        return detc_hydro.replay_hydro(rep["case"])
     d = vlib.rundir("determinism")
     bindir = vlib.cargo_build("hv_graph", bins=["graphc"])
     exe = os.path.join(bindir, "graphc")
